@@ -39,6 +39,8 @@ class RItem:
     b3: bool = False
     b4: bool = False
     b5: bool = False
+    b6: bool = False
+    b7: bool = False
 
     def __repr__(self):
         return self.name
